@@ -68,6 +68,11 @@ def run(ctx):
                         if kk > 0 and any(si < kk for si in bm["seq_in"]):
                             res.fail("projection", f"seed={seed} threaded: node {n_}: message record of {src} absent under settings {st}, max_records={mr} although {kk} steps are recorded", dict(task=t, spec=spec, settings=st))
                         continue
+                    orphan = [si for si in rm["seq_in"] if si >= rec["n"]]
+                    if orphan and rec["n"] > 0:
+                        res.fail("projection", f"seed={seed} threaded: node {n_}: the message record of {src} under settings {st}, max_records={mr} lists {len(orphan)} message(s) as consumed by "
+                                 f"step(s) {sorted(set(orphan))[:4]}, but only steps 0..{rec['n']-1} are recorded", dict(task=t, spec=spec, settings=st, max_records=mr))
+                        break
                     for f in ac.MSG_FIELDS:
                         want_m = [x for x, si in zip(bm[f], bm["seq_in"]) if si < kk]
                         got_m = [x for x, si in zip(rm[f], rm["seq_in"]) if si < kk]
